@@ -17,7 +17,7 @@ pub trait ExAsRef<T: core::marker::PointeeSized>: core::marker::PointeeSized {
 pub uninterp spec fn as_ref_view<S: core::marker::PointeeSized, T: core::marker::PointeeSized>(s: &S) -> &T;
 ''')
     u.env("codec_env.rs")
-    u.raw("pub mod cln_plugin { pub mod codec {\nuse super::super::*;\n")
+    u.raw("pub mod cln_plugin { pub mod codec {\nuse super::super::*;\nbroadcast use crate::axiom_bytesmut_len;\n")
     u.spec("codec.rs")
     u.item(c, "MultiLineCodec", "struct")
     u.free_fn(c, "find_separator", "cln_plugin::codec")
